@@ -325,8 +325,8 @@ func TestVerif_C07_node(t *testing.T) {
 	r := verifmc.NewReport("C07", "node", "exploration")
 	defer r.Write()
 	maxLen := verifmc.Pick(2, 3)
-	fullLimit := verifmc.Pick(160, 1200)
-	r.Rule = fmt.Sprintf("round trip: every shape of {leaf,branch} x value {none,empty,1,32,33 inline,33 hashed,64,16384 bytes} x partial key length at every header boundary of the variant (0,1,2, max-1..max+1, max+254..max+256, max+509..max+511, last multiple, 65534, 65535 for max=63/31/15; plus 62..65,317..319,573) x 10 child configurations (inline leaf / hashed / inline branch, 1, 2 or 16 children) is built, encoded with Node.Encode, decoded with Decode and compared field by field with its description; robustness: every byte string of length <= %d, for every valid encoding of <= %d bytes (quick: and a partial key of <= 2 nibbles) every single-byte substitution (255 values x every position), every truncation and 3 appended bytes, for the other encodings the same at every structural offset (header, key ends, bitmap, length prefixes, field starts; quick: the first 9 of them and the last byte), (inputs declaring a byte-string length above 64 KiB are executed serially, up to 8 MiB, for the designated pk=1 shapes (quick 7, thorough 21) and counted as skipped otherwise), every valid encoding through a one-byte-per-Read reader, the designated shapes through a reader that splits at every offset (thorough: also every other shape at every structural offset; encodings <= %d bytes). Non-trivial = the decoder returned a node or got past the header", maxLen, fullLimit, fullLimit)
+	fullLimit := verifmc.Pick(100, 1200)
+	r.Rule = fmt.Sprintf("round trip: every shape of {leaf,branch} x value {none,empty,1,32,33 inline,33 hashed,64,16384 bytes} x partial key length at every header boundary of the variant (0,1,2, max-1..max+1, max+254..max+256 for max=63/31/15, 62..64, 317..319, 65534, 65535; thorough adds max+509..max+511, the last multiple of 255, 65, 573 and 12 more) x 5 (quick) / 10 (thorough) child configurations (inline leaf / hashed / inline branch, 1, 2 or 16 children) is built, encoded with Node.Encode, decoded with Decode and compared field by field with its description; robustness: every byte string of length <= %d, for every valid encoding of <= %d bytes (quick: and a partial key of <= 1 nibble) every single-byte substitution (255 values x every position), every truncation and 3 appended bytes, for the other encodings the same at every structural offset (header, key ends, bitmap, length prefixes, field starts; quick: the first 9 of them and the last byte), (inputs declaring a byte-string length above 64 KiB are executed serially, up to 8 MiB, for the designated pk=1 shapes (quick 7, thorough 21) and counted as skipped otherwise), every valid encoding through a one-byte-per-Read reader, the designated shapes through a reader that splits at every offset (thorough: also every other shape at every structural offset; encodings <= %d bytes). Non-trivial = the decoder returned a node or got past the header", maxLen, fullLimit, fullLimit)
 	mon := c07NewMonitor(r, 300*time.Second)
 	defer close(mon.stop)
 
@@ -451,13 +451,15 @@ func TestVerif_C07_node(t *testing.T) {
 	const heavyFrom, heavyTo = 64 << 10, 8 << 20
 	var heavyMu sync.Mutex
 	readerSem := make(chan struct{}, 2)
+	var nsDev, nsReader int64
 	verifmc.ParallelFor(r, len(shapes), func(i int) {
 		if encs[i] == nil {
 			return
 		}
 		sh := shapes[i]
+		tShape := time.Now()
 		enc := append([]byte{}, encs[i]...) // working copy, modified in place and restored
-		full := len(enc) <= fullLimit && (verifmc.Thorough() || len(sh.D.PK) <= 2)
+		full := len(enc) <= fullLimit && (verifmc.Thorough() || len(sh.D.PK) <= 1)
 		designated := c07HeavyDesignated(sh.Name)
 		isMark := map[int]bool{}
 		for j, m := range marks[i] {
@@ -546,6 +548,9 @@ func TestVerif_C07_node(t *testing.T) {
 		if heavySkipped > 0 {
 			classes.add("deviation:declares-more-than-64KiB(skipped,counted)")
 		}
+		atomic.AddInt64(&nsDev, int64(time.Since(tShape)))
+		tShape = time.Now()
+		defer func() { atomic.AddInt64(&nsReader, int64(time.Since(tShape))) }()
 		// unfriendly readers: only panic / hang are demanded; the result classes are counted
 		var rev int64
 		reader := func(name string, rd io.Reader, pos int) {
@@ -581,6 +586,8 @@ func TestVerif_C07_node(t *testing.T) {
 		r.Add("reader_inputs", rev)
 	}, func(i int, msg string) { r.Violate("harness-panic", msg, shapes[i].Name) })
 	lap("deviations_and_readers")
+	r.Extra["worker_seconds_deviations"] = fmt.Sprintf("%.1f", float64(nsDev)/1e9)
+	r.Extra["worker_seconds_readers"] = fmt.Sprintf("%.1f", float64(nsReader)/1e9)
 	r.Extra["max_bytes_len"] = maxLen
 	r.Extra["full_neighbourhood_up_to_bytes"] = fullLimit
 	r.Extra["shapes"] = len(shapes)
